@@ -273,6 +273,8 @@ pub(crate) struct CacheProcessor<V, U, CB, S> {
     ignore_internal_cost: bool,
     item_size: usize,
     cleanup_duration: Duration,
+    #[cfg(transparencies_stretto_verif)]
+    verif_guard: crate::verif::counters::WorkerGuard,
 }
 
 pub(crate) struct CacheCleaner<'a, V, U, CB, S> {
@@ -471,6 +473,37 @@ where
     CB: CacheCallback<Value = V>,
     S: BuildHasher + Clone + 'static + Send,
 {
+    /// Read-only picture of store, policy and expiry index (verification hook).
+    #[cfg(transparencies_stretto_verif)]
+    pub fn verif_snapshot(&self, tag: impl Fn(&V) -> u64) -> crate::verif::Snapshot {
+        let (costs, used, max_cost) = self.policy.verif_costs();
+        let store = self.store.verif_entries(tag);
+        crate::verif::Snapshot {
+            len: self.store.len(),
+            store,
+            costs,
+            used,
+            max_cost,
+            buckets: self.store.verif_buckets(),
+            item_size: self.store.item_size(),
+        }
+    }
+
+    /// Popularity estimate of an index hash as the policy sees it now (verification hook).
+    #[cfg(transparencies_stretto_verif)]
+    pub fn verif_estimate(&self, index: u64) -> i64 {
+        self.policy.verif_estimate(index)
+    }
+
+    /// (pending items, capacity) of the insert buffer (verification hook).
+    #[cfg(transparencies_stretto_verif)]
+    pub fn verif_buffer(&self) -> (usize, usize) {
+        (
+            self.insert_buf_tx.len(),
+            self.insert_buf_tx.capacity().unwrap_or(usize::MAX),
+        )
+    }
+
     /// clear the Cache.
     #[inline]
     pub async fn clear(&self) -> Result<(), CacheError> {
@@ -691,6 +724,8 @@ where
             ignore_internal_cost,
             item_size,
             cleanup_duration,
+            #[cfg(transparencies_stretto_verif)]
+            verif_guard: crate::verif::counters::WorkerGuard::cache(),
         }
     }
 
@@ -698,23 +733,40 @@ where
     pub(crate) fn spawn(mut self, spawner: Box<dyn Fn(BoxFuture<'static, ()>) + Send + Sync>) {
         (spawner)(Box::pin(async move {
             let mut cleanup_timer = Timer::interval(self.cleanup_duration);
+            #[cfg(transparencies_stretto_verif)]
+            let mut cleanup_timer =
+                crate::verif::ticker::wrap_async(self.cleanup_duration, cleanup_timer);
 
             loop {
                 select! {
                     item = self.insert_buf_rx.recv().fuse() => {
                         if let Err(e) = self.handle_insert_event(item) {
                             tracing::error!("fail to handle insert event, error: {}", e);
+                            #[cfg(transparencies_stretto_verif)]
+                            crate::verif::counters::inc(&crate::verif::counters::HANDLER_ERRORS);
                         }
+                        #[cfg(transparencies_stretto_verif)]
+                        crate::verif::counters::inc(&crate::verif::counters::ITEMS_HANDLED);
                     }
                     _ = cleanup_timer.next().fuse() => {
+                        #[cfg(transparencies_stretto_verif)]
+                        crate::verif::counters::inc(&crate::verif::counters::TICKS_STARTED);
                         if let Err(e) = self.handle_cleanup_event() {
                             tracing::error!("fail to handle cleanup event, error: {}", e);
+                            #[cfg(transparencies_stretto_verif)]
+                            crate::verif::counters::inc(&crate::verif::counters::HANDLER_ERRORS);
                         }
+                        #[cfg(transparencies_stretto_verif)]
+                        crate::verif::counters::inc(&crate::verif::counters::TICKS_DONE);
                     },
                     _ = self.clear_rx.recv().fuse() => {
                         if let Err(e) = CacheCleaner::new(&mut self).clean().await {
                             tracing::error!("fail to handle clear event, error: {}", e);
+                            #[cfg(transparencies_stretto_verif)]
+                            crate::verif::counters::inc(&crate::verif::counters::HANDLER_ERRORS);
                         }
+                        #[cfg(transparencies_stretto_verif)]
+                        crate::verif::counters::inc(&crate::verif::counters::CLEARS_DONE);
                     },
                     _ = self.stop_rx.recv().fuse() => {
                         _ = self.handle_close_event();
